@@ -19,6 +19,7 @@ using namespace iora::network;
 
 namespace
 {
+const size_t appSizes[5] = {125, 126, 65535, 65536, 127}; // lengths around the 7/16/64-bit encodings
 struct Plan
 {
   wsg::Planned p;
@@ -156,16 +157,19 @@ void note_plan(const Plan& P, const char* who, size_t maxMsg)
 }
 struct Got { bool text; std::string payload; };
 // judges what the endpoint delivered and what it wrote
-void judge(const char* who, const Plan& P, const std::vector<Got>& got, const std::string& wire, bool wireMasked, bool closedCleanly)
+void judge(const char* who, const Plan& P, const std::vector<Got>& got, const std::string& wire, bool wireMasked, bool endpointCloses)
 {
   // (1) complete messages, in order; an invalid-UTF-8 text message is never delivered
   size_t expectUpTo = P.p.msgs.size();
   for (size_t i = 0; i < P.p.msgs.size(); i++) if (!P.p.msgs[i].validUtf8) { expectUpTo = i; break; }
   for (size_t i = 0; i < got.size(); i++)
   {
+    // whatever an endpoint makes of the bytes behind a hostile header is its own business (as long as it neither throws nor hoards)
+    if (P.hostile && i >= expectUpTo) break;
     if (i >= P.p.msgs.size()) sim::fail("c18-extra-message", "%s delivered %zu messages, only %zu were sent", who, got.size(), P.p.msgs.size());
     const wsg::Msg& m = P.p.msgs[i];
-    if (!m.validUtf8 && got[i].text) sim::fail("c18-invalid-utf8-delivered", "%s delivered a text message that is not valid UTF-8 (%s)", who, hx::hex(m.payload).c_str());
+    if (!m.validUtf8 && got[i].text && got[i].payload == m.payload) sim::fail("c18-invalid-utf8-delivered", "%s delivered a text message that is not valid UTF-8 (%s)", who, hx::hex(m.payload).c_str());
+    if (!m.validUtf8) break; // (what follows an invalid message is not specified)
     if (got[i].text != m.text || got[i].payload != m.payload)
     {
       size_t d = 0;
@@ -185,11 +189,7 @@ void judge(const char* who, const Plan& P, const std::vector<Got>& got, const st
   {
     wsg::Frame f;
     int r = wsg::decode(wire, pos, f);
-    if (r == 0)
-    {
-      if (closedCleanly) sim::fail("c18-malformed-output", "%s ended its stream in the middle of a frame (%zu stray bytes after %zu frames)", who, wire.size() - pos, frames);
-      break;
-    }
+    if (r == 0) break; // (a frame cut short by the end of the connection is not this property's concern)
     if (r < 0) sim::fail("c18-malformed-output", "%s wrote bytes that are not a valid frame after %zu frames: %s", who, frames, hx::hex(wire.substr(pos, 16)).c_str());
     frames++;
     if (f.masked != wireMasked) sim::fail("c18-wrong-masking", "%s wrote a frame that is %s", who, f.masked ? "masked" : "not masked");
@@ -202,10 +202,11 @@ void judge(const char* who, const Plan& P, const std::vector<Got>& got, const st
   // every ping sent before anything invalid / hostile / a close is answered, in order, with its own payload
   for (size_t i = 0; i < pongs.size(); i++)
   {
-    if (i >= P.p.pings.size()) sim::fail("c18-extra-pong", "%s sent %zu pongs for %zu pings", who, pongs.size(), P.p.pings.size());
+    if (i >= P.p.pings.size()) { if (P.hostile) break; sim::fail("c18-extra-pong", "%s sent %zu pongs for %zu pings", who, pongs.size(), P.p.pings.size()); }
     if (pongs[i] != P.p.pings[i]) sim::fail("c18-wrong-pong", "%s: pong %zu carries %s, ping %zu carried %s", who, i, hx::hex(pongs[i]).c_str(), i, hx::hex(P.p.pings[i]).c_str());
   }
-  bool allValid = expectUpTo == P.p.msgs.size() && !P.hostile; // (behind a hostile tail the last answers may never be written)
+  // (behind a hostile tail, or when the endpoint's own close races the last pings, the last answers may never be written)
+  bool allValid = expectUpTo == P.p.msgs.size() && !P.hostile && !endpointCloses && !P.p.endsWithClose; // (a close tears the connection down with answers still queued)
   if (allValid && pongs.size() < P.p.pings.size())
     sim::fail("c18-ping-unanswered", "%s answered %zu of %zu pings (%zu cuts)", who, pongs.size(), P.p.pings.size(), P.cuts.size());
 }
@@ -351,7 +352,7 @@ static void run_server_mode()
         for (int i = 0; i < 400 && !stopApp.load(); i++)
         {
           if (a % 2) srv->sendText(s, "app-" + std::to_string(a) + "-" + std::to_string(i));
-          else { std::string b = "bin-" + std::to_string(i); srv->sendBinary(s, std::vector<std::uint8_t>(b.begin(), b.end())); }
+          else { std::string b = "bin-" + std::to_string(i); if (i < 5) b.resize(appSizes[i], 'b'); srv->sendBinary(s, std::vector<std::uint8_t>(b.begin(), b.end())); }
           sim::sleep_ns((uint64_t)appGapUs * 1000ull);
         }
       });
@@ -386,10 +387,10 @@ static void run_server_mode()
   sim::sleep_ns(3000000);
   {
     std::lock_guard<std::mutex> g(mx);
-    if (P.hostile && g_heapGrowth > 3 * maxMsg + 512 * 1024)
+    if (P.hostile && g_heapGrowth > P.floodBytes / 4 * 3)
       sim::fail("c18-unbounded-buffer", "after %s the server buffered what followed: %zu further bytes were sent, the heap grew by %zu bytes (configured maximum message size %zu)%s", P.hostileWhat.c_str(), accepted,
                 g_heapGrowth, maxMsg, gaveUp ? "" : "; the connection is still open");
-    judge("server", P, got, in, false, peerClosed && !P.hostile);
+    judge("server", P, got, in, false, serverCloses);
     if ((P.p.endsWithClose || serverCloses) && !peerClosed) sim::fail("c18-not-closed", "the close handshake completed but the server did not close the connection within 6 s");
   }
   // ---- afterwards: still alive
@@ -496,8 +497,18 @@ static void run_client_mode()
     WebSocketClient::Options opt;
     opt.autoReconnect = false;
     opt.pingInterval = std::chrono::seconds(3600);
-    bool connected = client->connect("10.0.0.2", 8090, "/ws", opt, std::chrono::milliseconds(5000));
-    if (!connected) sim::fail("c18-handshake", "the client did not complete the upgrade with a correct 101 response");
+    std::atomic<bool> upgradeSeen{false};
+    std::string lastErr;
+    client->setOnConnect([&](const std::string&) { upgradeSeen = true; });
+    client->setOnError([&](const std::string& m) { std::lock_guard<std::mutex> g(mx); lastErr = m; });
+    // (connect() may report false when the peer's whole session - frames and close - is over before it returns)
+    (void)client->connect("10.0.0.2", 8090, "/ws", opt, std::chrono::milliseconds(5000));
+    for (int i = 0; i < 2000 && !upgradeSeen.load(); i++) sim::sleep_ns(1000000); // the callback may trail the state change
+    if (!upgradeSeen.load())
+    {
+      if (!upgraded.load()) sim::fail("harness", "the scripted peer never sent its 101 response (client error: %s)", lastErr.c_str());
+      sim::fail("c18-handshake", "the client did not complete the upgrade although a correct 101 response was sent (its error callback said: '%s')", lastErr.c_str());
+    }
     std::atomic<bool> stopApp{false};
     std::vector<std::thread> apps;
     for (int a = 0; a < nApp; a++)
@@ -507,7 +518,7 @@ static void run_client_mode()
         for (int i = 0; i < 400 && !stopApp.load(); i++)
         {
           if (a % 2) client->sendText("app-" + std::to_string(a) + "-" + std::to_string(i));
-          else { std::string b = "bin-" + std::to_string(i); client->sendBinary(std::vector<std::uint8_t>(b.begin(), b.end())); }
+          else { std::string b = "bin-" + std::to_string(i); if (i < 5) b.resize(appSizes[i], 'b'); client->sendBinary(std::vector<std::uint8_t>(b.begin(), b.end())); }
           sim::sleep_ns((uint64_t)appGapUs * 1000ull);
         }
       });
@@ -527,10 +538,10 @@ static void run_client_mode()
   ::close(lfd);
   {
     std::lock_guard<std::mutex> g(mx);
-    if (P.hostile && g_heapGrowth > 3 * maxMsg + 512 * 1024)
+    if (P.hostile && g_heapGrowth > P.floodBytes / 4 * 3)
       sim::fail("c18-unbounded-buffer", "after %s the client buffered what followed: %zu further bytes were sent, the heap grew by %zu bytes%s", P.hostileWhat.c_str(), accepted, g_heapGrowth,
                 gaveUp ? "" : "; the connection is still open");
-    judge("client", P, got, in, true, false);
+    judge("client", P, got, in, true, clientCloses);
   }
   sim::count("c18.messages_delivered", got.size());
   sim::count("c18.frames_sent", P.p.frames.size());
